@@ -26,7 +26,8 @@ check("C05", "The two fork-choice kernels agree with their reference rules for e
       "trusted: mirsym semantics and models; which segments add_block passes in, and delivery-order effects, are outside", "MIR-to-SMT symbolic execution (mirsym) decided by z3", "DESIGN.md 4/C05")
 NOT_APPLICABLE.setdefault('C06', NA_PENDING)
 NOT_APPLICABLE.setdefault('C07', NA_PENDING)
-NOT_APPLICABLE.setdefault('C09', NA_PENDING)
+check("C09", "Slip encode/decode round-trips on every wire field for every slip value, and the transaction decoder accepts every input/output/message/hop count that the encoder and the validator accept (size header agreement), decided by z3 over the MIR of the real encoder and decoder. Other formats are not claimed.",
+      "trusted: mirsym semantics, concat/extract models; blocks, messages, snapshot formats outside", "MIR-to-SMT symbolic execution (mirsym) decided by z3", "DESIGN.md 4/C09")
 NOT_APPLICABLE.setdefault('C11', NA_PENDING)
 NOT_APPLICABLE.setdefault('C13', NA_PENDING)
 NOT_APPLICABLE.setdefault('C14', NA_PENDING)
